@@ -1,4 +1,4 @@
-// GENERATED on every run by vlib/extract.py from /tmp/seedcheck-15216 -- do not edit
+// GENERATED on every run by vlib/extract.py from /tmp/refcheck-18294 -- do not edit
 #![allow(unused_imports, unused_variables, unused_mut, dead_code, unused_parens, unused_braces, non_snake_case)]
 use vstd::prelude::*;
 use core::cmp::Ordering;
@@ -585,6 +585,21 @@ impl From<ParseError> for PackageError {
     { PackageError::Parse(e) }
 }
 
+// ---- the static name table (C15) ----
+/// a table entry: a key text mapped to a variant; the entries are exactly the (name, variant) pairs
+pub open spec fn table_entry(k: Seq<char>, t: PackageType) -> bool { k == type_name(t) }
+pub open spec fn table_has(t: PackageType) -> bool { table_entry(type_name(t), t) }
+
+/// `PACKAGE_TYPES.get(&UniCase::new(s)).copied()`: ASSUMED contract of phf + unicase for a table whose keys are the variant
+/// names (proved entry by entry in package_types_table): a hit means the probe equals that key ignoring ASCII case, and every
+/// probe that equals a key ignoring ASCII case hits. (B: all 192 case variants, look-alikes and one-edit neighbours.)
+#[verifier::external_body]
+pub fn x_table_lookup(s: &str) -> (r: Option<PackageType>)
+    ensures
+        r is Some ==> lower_ascii_seq(s@) == type_name(r->Some_0),
+        (exists|t: PackageType| lower_ascii_seq(s@) == type_name(t)) ==> r is Some,
+{ unimplemented!() }
+
 // ---- unit T.PurlShape  <= purl/src/lib.rs:111 ----
 pub trait PurlShape: Sized {
     type Error: From<ParseError>;
@@ -664,6 +679,40 @@ pub const fn name(&self) -> (r: &'static str)
         }
     }
 }
+// ---- unit U-ptname.table  <= purl/src/package_type.rs:153 ----
+pub proof fn package_types_table()
+    ensures forall|t: PackageType| #[trigger] table_has(t)
+{
+    let mut seen: Set<PackageType> = Set::empty();
+        reveal_strlit("cargo"); assert("cargo"@ =~= type_name(PackageType::Cargo)); assert(table_entry("cargo"@, PackageType::Cargo)); seen = seen.insert(PackageType::Cargo);
+        reveal_strlit("gem"); assert("gem"@ =~= type_name(PackageType::Gem)); assert(table_entry("gem"@, PackageType::Gem)); seen = seen.insert(PackageType::Gem);
+        reveal_strlit("golang"); assert("golang"@ =~= type_name(PackageType::Golang)); assert(table_entry("golang"@, PackageType::Golang)); seen = seen.insert(PackageType::Golang);
+        reveal_strlit("maven"); assert("maven"@ =~= type_name(PackageType::Maven)); assert(table_entry("maven"@, PackageType::Maven)); seen = seen.insert(PackageType::Maven);
+        reveal_strlit("npm"); assert("npm"@ =~= type_name(PackageType::Npm)); assert(table_entry("npm"@, PackageType::Npm)); seen = seen.insert(PackageType::Npm);
+        reveal_strlit("nuget"); assert("nuget"@ =~= type_name(PackageType::NuGet)); assert(table_entry("nuget"@, PackageType::NuGet)); seen = seen.insert(PackageType::NuGet);
+        reveal_strlit("pypi"); assert("pypi"@ =~= type_name(PackageType::PyPI)); assert(table_entry("pypi"@, PackageType::PyPI)); seen = seen.insert(PackageType::PyPI);
+    assert forall|t: PackageType| #[trigger] table_has(t) by {
+        match t {
+            PackageType::Cargo => { assert(seen.contains(PackageType::Cargo)); },
+            PackageType::Gem => { assert(seen.contains(PackageType::Gem)); },
+            PackageType::Golang => { assert(seen.contains(PackageType::Golang)); },
+            PackageType::Maven => { assert(seen.contains(PackageType::Maven)); },
+            PackageType::Npm => { assert(seen.contains(PackageType::Npm)); },
+            PackageType::NuGet => { assert(seen.contains(PackageType::NuGet)); },
+            PackageType::PyPI => { assert(seen.contains(PackageType::PyPI)); },
+        }
+    }
+}
+// ---- unit T.UnsupportedPackageType  <= purl/src/package_type.rs:200 ----
+pub struct UnsupportedPackageType;
+// ---- unit U-ptname.from_str  <= purl/src/package_type.rs:205 ----
+pub fn package_type_from_str(s: &str) -> (r: Result<PackageType, UnsupportedPackageType>)
+    ensures
+        r is Ok ==> lower_ascii_seq(s@) == type_name(r->Ok_0),
+        (exists|t: PackageType| lower_ascii_seq(s@) == type_name(t)) ==> r is Ok
+{
+        x_table_lookup(s).ok_or(UnsupportedPackageType)
+    }
 impl PurlShape for PackageType {
 // ---- unit spec.PackageType  <= (contracts):0 ----
     type Error = PackageError;
